@@ -379,6 +379,20 @@ def run(analysis: Analysis, tier: str) -> RuleResult:
         # accepting path carrying the equality)
         res.add("C17-R2", f"{TO_MSG} / a wrong prefix is rejected", bool(accepted) and all(r["prefix_equal"] for r in accepted) and bool(rejected), "mysensors/gateway_mqtt.py", "every accepting path is taken under prefix == in_prefix and a rejecting path exists")
     subscriptions(analysis, res)
+    # the prefixes every topic rule above speaks about are the configured ones: the constructor stores
+    # in_prefix / out_prefix / retain unchanged (C18-R1 for the MQTT classes, shared) - a "normalised" prefix is
+    # consistent inside the library and still subscribes / publishes somewhere else than configured
+    from . import c18
+
+    jobs = [(cls, ("in_prefix", "out_prefix", "retain"), "MQTT options") for cls in ("gateway_mqtt:MQTTGateway", "gateway_mqtt:AsyncMQTTGateway")]
+    for summ in common.pmap(analysis, c18.construct_worker, jobs):
+        good = [r for r in summ["rows"] if r["kind"] == "val"]
+        if not good:
+            raise AnalysisError(f"C17-R3: no constructor path for {summ['cls']}")
+        for r in good:
+            for o in ("in_prefix", "out_prefix", "retain"):
+                ok = bool(r["honoured"].get(o))
+                res.add("C17-R3", f"{summ['cls']} / the transport uses the configured {o} unchanged", ok, "mysensors/gateway_mqtt.py", "stored as given" if ok else f"the {o} given to the constructor is not what the transport stores (stripped / rewritten): subscriptions, accepted topics and published topics differ from the configured ones", r["witness"] if not ok else None)
     for summ in common.pmap(analysis, isolation_worker, ["sync", "async"]):
         res.add("C17-R4", "gateway_mqtt:MQTTTransport.handle_subscription / a raising subscribe callback never escapes", not summ["escapes"], "mysensors/gateway_mqtt.py", "; ".join(summ["escapes"][:2]) or "caught and logged", context=summ["flavour"])
         res.add("C17-R4", "gateway_mqtt:MQTTTransport.handle_subscription / subscribes the inbound prefix + template with recv as callback", summ["cbs"] > 0 and summ["prefixed"] and summ["recv_cb"], "mysensors/gateway_mqtt.py", f"{summ['cbs']} callback events", context=summ["flavour"])
